@@ -242,7 +242,7 @@ def _dtype(rng):
 
 def cases(rng, tier):
     out = list(_corpus()) if tier != 'search' else []
-    nrand = dict(quick=900, thorough=9000, search=4000)[tier]
+    nrand = dict(quick=2500, thorough=60000, search=10000)[tier]
     for i in range(nrand):
         u = rng.random()
         dtype = _dtype(rng)
